@@ -2,7 +2,7 @@
    the functions of libmcount / utils/fstack.c it restates and for what is not modelled). *)
 From Coq Require Import NArith List Bool.
 Import ListNotations.
-Require Import UV.C11.Model UV.C11.StepBase UV.C11.Proofs UV.C11.ProofsDepth UV.C11.ProofsReplay.
+Require Import UV.C11.Model UV.C11.StepBase UV.C11.Proofs UV.C11.ProofsDepth UV.C11.ProofsReplay UV.C11.StreamMain.
 Local Open Scope N_scope.
 
 (* Every legal program - any mix, order and depth of traced / untraced / PLT calls, tail calls, setjmp,
@@ -46,6 +46,29 @@ Print Assumptions C11_recorded_depth_is_height.
 Theorem C11_replay_depth_all_streams : forall es l, gt_run gt0 es = Some l -> rp_run rp0 es = l.
 Proof. exact replay_depth_all_streams. Qed.
 Print Assumptions C11_replay_depth_all_streams.
+
+(* End to end on the model ("the trace closes the abandoned calls or marks the jump so that replay shows
+   all later calls at their true depth"): for every legal program the stream of records libmcount has
+   written - lazily flushed ENTRY records, EXIT records of the frames dropped by exception unwinding, the
+   longjmp ENTRY followed by the second EXIT of its setjmp - is accepted by the ground truth with the depth
+   field of every record as its true depth, and replay shows every record at exactly that depth.  (The
+   depth field is the height of the shadow-stack entry, C11_recorded_depth_is_height, which is the number
+   of live traced functions, C11_shadow_stack_is_live_hooked_frames.) *)
+Theorem C11_replay_shows_recorded_depths : forall ops, legal_prog ops = true ->
+  exists s obs, lrun init ops = Some (s, obs) /\
+    gt_run gt0 (stream_of (out s)) = Some (map r_depth (out s)) /\
+    rp_run rp0 (stream_of (out s)) = map r_depth (out s).
+Proof. exact replay_shows_recorded_depths. Qed.
+Print Assumptions C11_replay_shows_recorded_depths.
+
+Theorem C11_replay_shows_recorded_depths_sample :
+  match lrun init sample_prog with
+  | Some (s, _) => (map r_depth (out s), rp_run rp0 (stream_of (out s)))
+  | None => ([], [])
+  end = ([0; 1; 2; 3; 3; 3; 4; 4; 4; 3; 3; 4; 4; 4; 4; 3; 2; 1; 0],
+         [0; 1; 2; 3; 3; 3; 4; 4; 4; 3; 3; 4; 4; 4; 4; 3; 2; 1; 0]).
+Proof. exact replay_shows_recorded_depths_sample. Qed.
+Print Assumptions C11_replay_shows_recorded_depths_sample.
 
 (* non-vacuity + regression witness of the repaired defect (longjmp to an older jmp_buf) *)
 Theorem C11_replay_older_jmpbuf_now_right :
